@@ -13,6 +13,7 @@
 #include <algorithm>
 #include <iostream>
 #include <sstream>
+#include <type_traits>
 #include <string>
 using namespace covfie;
 using u64 = std::uint64_t;
@@ -58,29 +59,60 @@ std::string run(const std::vector<u64> & sz) {
       L == 0 ? utility::ipow<u64>(utility::round_pow2<u64>(mx), N) : total}));
   field<LA> dst(src);
   u64 len = dst.backend().get_backend().get_configuration()[0];
-  typename field<LA>::view_t v(dst);
-  forall<N>(sz, [&](const std::vector<u64> & c, u64 k) {
-    typename field<LA>::coordinate_t cc; for (std::size_t d = 0; d < N; ++d) cc[d] = static_cast<CT>(c[d]);
-    for (std::size_t q = 0; q < M; ++q) v.at(cc)[q] = static_cast<T>(k * 4 + q + 1);
-  });
-  std::string bad;
-  forall<N>(sz, [&](const std::vector<u64> & c, u64 k) {
-    if (!bad.empty()) return;
-    typename field<LA>::coordinate_t cc; for (std::size_t d = 0; d < N; ++d) cc[d] = static_cast<CT>(c[d]);
-    for (std::size_t q = 0; q < M; ++q) {
-      T got = v.at(cc)[q];
-      if (got != static_cast<T>(k * 4 + q + 1)) {
-        std::ostringstream os; os << "bad readback at"; for (auto x : c) os << " " << x;
-        os << " comp " << q << " got " << got << " want " << (k * 4 + q + 1);
-        bad = os.str(); return;
+  // one pass over a field: (optionally) write a distinct value at every in-range coordinate through a view, then read everything back
+  auto pass = [&](field<LA> & fl, u64 off, bool write, const char * route) -> std::string {
+    typename field<LA>::view_t v(fl);
+    if (write)
+      forall<N>(sz, [&](const std::vector<u64> & c, u64 k) {
+        typename field<LA>::coordinate_t cc; for (std::size_t d = 0; d < N; ++d) cc[d] = static_cast<CT>(c[d]);
+        for (std::size_t q = 0; q < M; ++q) v.at(cc)[q] = static_cast<T>(k * 4 + q + 1 + off);
+      });
+    std::string bad;
+    forall<N>(sz, [&](const std::vector<u64> & c, u64 k) {
+      if (!bad.empty()) return;
+      typename field<LA>::coordinate_t cc; for (std::size_t d = 0; d < N; ++d) cc[d] = static_cast<CT>(c[d]);
+      for (std::size_t q = 0; q < M; ++q) {
+        T got = v.at(cc)[q];
+        if (got != static_cast<T>(k * 4 + q + 1 + off)) {
+          std::ostringstream os; os << "bad readback (" << route << ") at"; for (auto x : c) os << " " << x;
+          os << " comp " << q << " got " << got << " want " << (k * 4 + q + 1 + off);
+          bad = os.str(); return;
+        }
       }
-    }
-  });
-  if (!bad.empty()) return bad;
-  // the values are also visible through a second, independently created view (a view is just a handle)
-  typename field<LA>::view_t v2(dst);
-  typename field<LA>::coordinate_t c0; for (std::size_t d = 0; d < N; ++d) c0[d] = 0;
-  if (v2.at(c0)[0] != static_cast<T>(1)) return "bad second view";
+    });
+    if (!bad.empty()) return bad;
+    // the values are also visible through a second, independently created view (a view is just a handle)
+    typename field<LA>::view_t v2(fl);
+    typename field<LA>::coordinate_t c0; for (std::size_t d = 0; d < N; ++d) c0[d] = 0;
+    if (v2.at(c0)[0] != static_cast<T>(1 + off)) return std::string("bad second view (") + route + ")";
+    return "";
+  };
+  // the field the converting constructor made
+  if (std::string b = pass(dst, 0, true, "converted"); !b.empty()) return b;
+  // the same array semantics however the field came to be: loaded from its own dump, copied, built from its configurations,
+  // built from a configuration and a ready-made backend
+  {
+    std::stringstream ss; dst.dump(ss); field<LA> r(ss);
+    if (std::string b = pass(r, 0, false, "reloaded"); !b.empty()) return b;
+    if (std::string b = pass(r, 7, true, "reloaded, rewritten"); !b.empty()) return b;
+  }
+  {
+    field<LA> cpy(dst);
+    if (std::string b = pass(cpy, 0, false, "copied"); !b.empty()) return b;
+    if (std::string b = pass(cpy, 3, true, "copied, rewritten"); !b.empty()) return b;
+    if (std::string b = pass(dst, 0, false, "original after writes to its copy"); !b.empty()) return b;
+  }
+  {
+    typename LA::configuration_t lcfg = dst.backend().get_configuration();
+    field<LA> p(make_parameter_pack(std::move(lcfg), typename A::configuration_t{len}));
+    if (std::string b = pass(p, 5, true, "built from configurations"); !b.empty()) return b;
+  }
+  if constexpr (std::is_constructible_v<typename LA::owning_data_t, const typename LA::configuration_t &, typename A::owning_data_t &&>) {
+    typename LA::configuration_t lcfg = dst.backend().get_configuration();
+    typename LA::owning_data_t od(lcfg, typename A::owning_data_t(typename A::configuration_t{len}));
+    field<LA> q(make_parameter_pack(std::move(od)));
+    if (std::string b = pass(q, 9, true, "built from a configuration and a backend"); !b.empty()) return b;
+  }
   return "ok " + std::to_string(total) + " " + std::to_string(len);
 }
 template <int L, std::size_t N>
